@@ -98,6 +98,39 @@ func (e *Effects) Writes() []Write {
 						if o := cal.Origin(); o != nil {
 							org = o // instances of generic types (atomic.Pointer[T]) carry no package and no receiver of their own
 						}
+						// standard-library functions that fill a destination slice they are given
+						if pk := org.Package(); pk != nil {
+							dst := -1
+							switch pk.Pkg.Path() {
+							case "encoding/binary":
+								if strings.HasPrefix(org.Name(), "PutUint") || strings.HasPrefix(org.Name(), "PutVarint") || strings.HasPrefix(org.Name(), "PutUvarint") {
+									dst = 0
+									if org.Signature.Recv() != nil {
+										dst = 1
+									}
+								}
+							case "encoding/hex", "encoding/base64":
+								if org.Name() == "Encode" || org.Name() == "Decode" {
+									dst = 0
+									if org.Signature.Recv() != nil {
+										dst = 1
+									}
+								}
+							case "io":
+								if org.Name() == "ReadFull" || org.Name() == "ReadAtLeast" {
+									dst = 1
+								}
+							case "crypto/rand":
+								if org.Name() == "Read" {
+									dst = 0
+								}
+							}
+							if dst >= 0 && dst < len(in.Call.Args) {
+								w := Write{Instr: in, Fn: f, Addr: in.Call.Args[dst], What: "destination of " + pk.Pkg.Name() + "." + org.Name()}
+								w.Roots = e.provenance(in.Call.Args[dst], f, 0, map[ssa.Value]bool{})
+								out = append(out, w)
+							}
+						}
 						// mutating methods of standard-library objects that are handed around by pointer: extending a
 						// certificate pool, setting a big integer, writing into a buffer are writes to the receiver
 						if pk := org.Package(); pk != nil && org.Signature.Recv() != nil {
